@@ -1,6 +1,7 @@
 package vx
 
 import (
+	"time"
 	"github.com/cube2222/octosql/functions"
 	"github.com/cube2222/octosql/octosql"
 	"github.com/cube2222/octosql/zzverif"
@@ -229,6 +230,15 @@ func VerifC12Regex() {
 		want = "(?i)" + p
 	}
 	fn := functions.FunctionMap()[name].Descriptors[0].Function
+	if zzverif.ParamOr("WARM", 0) == 1 {
+		// the same pattern TEXT goes through LIKE first (same process, as in one query that uses both
+		// operators): whatever LIKE compiled and cached for it must not be what ~ then uses
+		like := functions.FunctionMap()["like"].Descriptors[0].Function
+		_, _ = like([]octosql.Value{octosql.NewString("x"), octosql.NewString(p)})
+		if !zzverif.Symbolic() {
+			time.Sleep(30 * time.Millisecond) // ristretto applies Set asynchronously
+		}
+	}
 	if zzverif.Symbolic() {
 		_, _ = fn([]octosql.Value{octosql.NewString(s), octosql.NewString(p)})
 		zzverif.Reach("called")
@@ -258,7 +268,7 @@ func VerifC12Regex() {
 	// folding differs from lower-casing (s/ſ, k/K (Kelvin sign), i/İ), over subjects that
 	// include those characters.
 	patterns := []string{p}
-	subjects := []string{s, "", "a", "A", " ", "1", "_", "\a", "aA", "A a"}
+	subjects := []string{s, "", "a", "A", " ", "1", "_", "\a", "aA", "A a", p, "x" + p + "x"}
 	if ci {
 		patterns = append(patterns, "s", "k", "i", "S", "most")
 		subjects = append(subjects, "\u017f", "\u212a", "\u0130", "\u0131", "mo\u017ft")
